@@ -11,3 +11,4 @@ func verifFInv(a ELEMTYPE) ELEMTYPE         { return a }
 func verifFConst(v int) ELEMTYPE            { var e ELEMTYPE; return e }
 func verifFEq(a, b ELEMTYPE) bool           { return false }
 func verifFIsZero(a ELEMTYPE) bool          { return false }
+func verifFToU64(a ELEMTYPE) (uint64, bool)    { return 0, false }
